@@ -225,6 +225,9 @@ def run_linear(run):
 
 
 def build(run):
+    from props import conformance
+
+    conformance.run_conformance(run, ['ops', 'symmetric'])
     run.assume("A-ENGINE", "A-PY", "A-REAL (contractions are exact real sums; float accumulation error is not bounded)",
                "A-TORCH-RED matmul / _int_mm / _weight_int8pack_mm satisfy their mathematical specification; int32 accumulation does not overflow",
                "A-TORCH-DISPATCH F.linear with a QTensor argument reaches QTensor.__torch_function__; torch.ops.quanto.qbytes_mm picks the kernel registered for the device key",
